@@ -129,8 +129,24 @@ def rule_rw(rep, d, cls):
             continue
         lab = "any::construct<%s>" % ir.template_args(f)[0]
         taken = []
-        for n in ir.walk_expr(f):
-            if n.get("kind") == "CXXMethodDecl" and n.get("name") == "operator()" and ir.template_args(n) and ir.body(n) is not None:
+        # the instantiated static_if branch (a generic lambda's call operator) or a member helper construct() hands over to (tag dispatch)
+        bodies = [n for n in ir.walk_expr(f) if n.get("kind") == "CXXMethodDecl" and n.get("name") == "operator()" and ir.template_args(n) and ir.body(n) is not None]
+        seen_c = {f.get("id")}
+        work = [f]
+        while work:
+            cur = work.pop()
+            for x in ir.walk_expr(ir.body(cur)) if ir.body(cur) is not None else []:
+                if x.get("kind") == "CXXMemberCallExpr":
+                    c_ = ir.strip(ir.ekids(x)[0])
+                    tg = d.by_id.get(c_.get("referencedMemberDecl"))
+                    if tg is not None and tg.get("id") not in seen_c and ir.has_body(tg) and ir.enclosing_class(d, tg) is cls:
+                        seen_c.add(tg.get("id"))
+                        bodies.append(tg)
+                        work.append(tg)
+        if not bodies and any(x.get("kind") == "CXXNewExpr" for x in ir.walk_expr(f)):
+            bodies = [f]
+        for n in bodies:
+            if True:
                 news = [x for x in ir.walk_expr(n) if x.get("kind") == "CXXNewExpr"]
                 for nw in news:
                     par = d.parent_of(nw)
@@ -396,8 +412,8 @@ class SlotSim:
                     key = "L_%s_%d" % (v.get("name"), depth)
                     bind[v.get("name")] = key
                     st[key] = None
-                elif "*" in ir.qtype(v) and ir.ekids(v):
-                    # a pointer local: it names the object the storage held when it was initialised (or the one just allocated)
+                elif ("*" in ir.qtype(v) or ("&" in ir.qtype(v) and "storage_union" not in ir.qtype(v))) and ir.ekids(v):
+                    # a pointer (or reference) local: it names the object the storage held when it was initialised (or the one just allocated)
                     init = ir.ekids(v)[-1]
                     if any(x.get("kind") == "CXXNewExpr" for x in [ir.strip(init)] + list(ir.walk_expr(init))):
                         bind[v.get("name")] = ("ptr", self._pending_new)
@@ -476,6 +492,8 @@ class SlotSim:
                     continue
                 rs = ir.strip(rhs)
                 rt = self.sx(rhs)
+                while rt[0] == "cast":
+                    rt = rt[3]
                 # an overwritten owner is not judged here: an object that ends up owned by no storage is reported at exit (leak)
                 if rs.get("kind") == "CXXNewExpr":
                     st[lk] = self._pending_new
@@ -483,6 +501,14 @@ class SlotSim:
                 if rt == ("lit", "nullptr"):
                     st[lk] = None      # ownership must have been transferred; checked at exit (unowned object = leak)
                     continue
+                if rt[0] == "call" and rt[1][0] == "ref" and str(rt[1][1]).split("::")[-1] == "exchange" and len(rt) == 4:
+                    # std::exchange(src.dynamic, nullptr): the old pointer is handed over and the source is reset in one step
+                    xk, xf = self.storage_of(rt[2], bind)
+                    if xk is not None and xf == "dynamic":
+                        need_live(xk, "pointer taken from")
+                        st[lk] = st[xk]
+                        st[xk] = None if rt[3] == ("lit", "nullptr") else st[xk]
+                        continue
                 rk, rf = self.storage_of(rt, bind)
                 if rk is not None and rf == "dynamic":
                     need_live(rk, "pointer copy from")
@@ -491,6 +517,7 @@ class SlotSim:
                 if ptr_obj(rt) is not NOPTR:
                     st[lk] = ptr_obj(rt)
                     continue
+
                 raise SlotViolation("storage pointer assigned from `%s`" % ir.show(rt))
             if k in ("CXXPseudoDestructorExpr",) or (k == "CXXMemberCallExpr" and t[0] == "call" and t[1][0] == "mem" and str(t[1][2]).startswith("~")):
                 key, fld = self.storage_of(t, bind)
@@ -916,6 +943,17 @@ class AnySim:
                     o["mod"] = True
                     return res + self.path(fn, path, i, fr, st, depth)
                 continue
+            if k == "CXXNewExpr" and ir.enclosing_class(d, fn) is self.cls and fn.get("name") not in ("vtable_for_type",):
+                # the payload is built (in place or on the heap) by a member of any: construct() or a helper it was split into
+                o = st["objs"][fr["this"]]
+                if o["s"] is not None:
+                    raise LifeViolation("the new value is built over a live object", n)
+                if o["v"] in (None, "uninit"):
+                    raise LifeViolation("the value is built before the vtable is set", n)
+                res = self.finish(self.copy_fr(fr), self.copy_st(st), "throw", depth)     # the payload constructor may throw
+                o["s"] = o["v"]
+                o["mod"] = True
+                return res + self.path(fn, path, i, fr, st, depth)
             if k == "CXXMemberCallExpr":
                 c = ir.strip(ks[0])
                 callee = d.by_id.get(c.get("referencedMemberDecl"))
@@ -1170,66 +1208,98 @@ def rule_cast(rep, d, cls):
         paths = flow.function_paths(f, with_ctor_inits=False)
         T = norm_type(ir.template_args(f)[0]) if ir.template_args(f) else "?"
         if "*" in pq:
+            # compositional: (1) in any_cast every member call on the operand lies on a path that established operand != nullptr and the other
+            # paths yield nullptr; (2) in whichever function the storage cast `cast<T>()` is called - any_cast itself or a member it delegates to -
+            # that call lies on a path that established is_typed(typeid(T)) and the other paths yield nullptr
             bad = None
             ncast = 0
-            for path in paths:
-                conds = {}
-                for s in path:
-                    if s[0] == "cond":
-                        conds[ir.sx(s[1])] = (s[2], s[1])
-                ret = path[-1]
-                if ret[0] != "return":
-                    bad = (f, "a path does not return")
-                    break
-                rt = ir.sx(ir.ekids(ret[1])[0]) if ir.ekids(ret[1]) else ("none",)
-                # only the arm that is evaluated on this path counts (flow emits events of the chosen ?: arm only)
-                calls_cast = any(s_[0] == "ev" and s_[1].get("kind") == "CXXMemberCallExpr" and ir.sx(s_[1])[0] == "call" and ir.sx(s_[1])[1][0] == "mem" and ir.sx(s_[1])[1][2] == "cast"
-                                 for s_ in path)
-                NULLP = ("lit", "nullptr")
-                PR = ("ref", pname)
+            NULLP = ("lit", "nullptr")
+            PR = ("ref", pname)
 
-                def truth(op, a_, b_):
-                    return conds.get(("bin", op, a_, b_), (None,))[0]
-                null_ok = (truth("==", PR, NULLP) is False or truth("==", NULLP, PR) is False or truth("!=", PR, NULLP) is True or truth("!=", NULLP, PR) is True
-                           or conds.get(PR, (None,))[0] is True)
-                typed = [(v, nd) for t, (v, nd) in conds.items() if t[0] == "call" and t[1][0] == "mem" and t[1][2] == "is_typed"]
-                typed_ok = any(v is True for v, nd in typed)
-                tid_ok = True
-                for v, nd in typed:
-                    tids = [x for x in ir.walk_expr(nd) if x.get("kind") == "CXXTypeidExpr"]
-                    for x in tids:
-                        ta = norm_type(((x.get("typeArg") or {}).get("qualType")) or "")
-                        if ta.replace("const ", "") not in (T.replace("const ", ""), "T"):
-                            tid_ok = False
-                if calls_cast:
-                    ncast += 1
-                    if not (null_ok and typed_ok):
-                        bad = (ret[1], "the stored object is handed out on a path that did not establish `operand != nullptr` and `operand->is_typed(typeid(T))`")
-                        break
-                    if not tid_ok:
-                        bad = (ret[1], "the type test does not use typeid(T)")
-                        break
-                else:
-                    # value returned on this path: a plain nullptr, or the arm of a ?: chosen by the path's conditions
-                    def chosen(t):
-                        while t[0] == "cast":
-                            t = t[3]
-                        if t[0] == "cond":
-                            # which arm?  the arm that does not call cast (no cast event on this path)
-                            a1, a2 = t[2], t[3]
-                            has1 = any(x[0] == "call" and x[1][0] == "mem" and x[1][2] == "cast" for x in ir.subterms(a1))
-                            return chosen(a2 if has1 else a1)
-                        return t
-                    rv = chosen(rt)
-                    if rv != ("lit", "nullptr"):
-                        bad = (ret[1], "the failure path returns `%s`, expected nullptr" % ir.show(rv))
-                        break
+            def uncast_(t):
+                while t[0] == "cast":
+                    t = t[3]
+                return t
+
+            def analyse(g, need_null, who, depth=0):
+                """-> (bad or None, number of paths that reach the storage cast)"""
+                reach = 0
+                for path in flow.function_paths(g, with_ctor_inits=False):
+                    conds = {}
+                    for s_ in path:
+                        if s_[0] == "cond":
+                            conds[uncast_(ir.sx(s_[1]))] = (s_[2], s_[1])
+
+                    def truth(op, a_, b_):
+                        return conds.get(("bin", op, a_, b_), (None,))[0]
+                    null_ok = (not need_null) or (truth("==", PR, NULLP) is False or truth("==", NULLP, PR) is False or truth("!=", PR, NULLP) is True or truth("!=", NULLP, PR) is True
+                                                   or conds.get(PR, (None,))[0] is True)
+                    typed = [(v, nd) for t, (v, nd) in conds.items() if t[0] == "call" and t[1][0] == "mem" and t[1][2] == "is_typed"]
+                    typed_ok = any(v is True for v, nd in typed)
+                    for v, nd in typed:
+                        for x in [x for x in ir.walk_expr(nd) if x.get("kind") == "CXXTypeidExpr"]:
+                            ta = norm_type(((x.get("typeArg") or {}).get("qualType")) or "")
+                            if ta.replace("const ", "") not in (T.replace("const ", ""), "T"):
+                                return ((nd, "the type test does not use typeid(T)"), reach)
+                    ret = path[-1]
+                    if ret[0] != "return":
+                        return ((g, "a path of %s does not return" % who), reach)
+                    reached = False
+                    for s_ in path:
+                        if s_[0] != "ev" or s_[1].get("kind") != "CXXMemberCallExpr":
+                            continue
+                        t = ir.sx(s_[1])
+                        if t[0] != "call" or t[1][0] != "mem":
+                            continue
+                        base, mname = uncast_(t[1][1]), t[1][2]
+                        on_operand = base == PR or (not need_null and base == ("this",))
+                        if not on_operand or mname in ("is_typed", "type", "empty", "has_value", "is_same"):
+                            continue
+                        if not null_ok:
+                            return ((s_[1], "`%s` is called through the operand on a path that did not establish `operand != nullptr`" % mname), reach)
+                        if mname == "cast":
+                            if not typed_ok:
+                                return ((s_[1], "the stored object is handed out on a path that did not establish `is_typed(typeid(T))`"), reach)
+                            reached = True
+                        else:
+                            callee = d.by_id.get(ir.strip(ir.ekids(s_[1])[0]).get("referencedMemberDecl"))
+                            if callee is None or not ir.has_body(callee) or depth > 2:
+                                return ((s_[1], "the operand is handed to `%s`, which is not followed" % mname), reach)
+                            if typed_ok and any(x.get("kind") == "CXXMemberCallExpr" and ir.sx(x)[0] == "call" and ir.sx(x)[1][0] == "mem" and ir.sx(x)[1][2] == "cast" for x in ir.walk_expr(callee)):
+                                reached = True            # the type test was made by the caller
+                            else:
+                                b2, r2 = analyse(callee, False, "any::" + mname, depth + 1)
+                                if b2:
+                                    return (b2, reach)
+                                reached = reached or r2 > 0
+                    if reached:
+                        reach += 1
+                    else:
+                        # the value returned on this path: nullptr, possibly as the arm of a ?: chosen by the path's conditions
+                        def chosen(n_):
+                            n_ = ir.strip(n_)
+                            if n_.get("kind") == "ConditionalOperator":
+                                kk = ir.ekids(n_)
+                                tc = uncast_(ir.sx(kk[0]))
+                                neg_ = False
+                                while tc[0] == "un" and tc[1] == "!":
+                                    tc, neg_ = uncast_(tc[2]), not neg_
+                                v_ = conds.get(tc, (None,))[0]
+                                if v_ is None:
+                                    return None
+                                return chosen(kk[1] if (v_ != neg_) else kk[2])
+                            return n_
+                        rv_ = chosen(ir.ekids(ret[1])[0]) if ir.ekids(ret[1]) else None
+                        if rv_ is None or uncast_(ir.sx(rv_)) != NULLP:
+                            return ((ret[1], "a path of %s that does not reach the stored object returns `%s`, expected nullptr" % (who, d.text(rv_)[:40] if rv_ is not None else "?")), reach)
+                return (None, reach)
+            bad, ncast = analyse(f, True, "any_cast")
             if bad:
                 rep.violates(R, lab, "type check dominates the storage cast", where=d.where(bad[0]), detail=bad[1])
             elif ncast == 0:
                 rep.inconclusive(R, lab, "type check dominates the storage cast", where=d.where(f), detail="no path returns operand->cast<T>()")
             else:
-                rep.holds(R, lab, "type check dominates the storage cast", where=d.where(f), detail="%d paths" % len(paths))
+                rep.holds(R, lab, "type check dominates the storage cast", where=d.where(f), detail="%d path(s) reach the stored object, each after the null and type tests" % ncast)
         else:
             bad = None
             for path in paths:
